@@ -37,6 +37,8 @@ const QUICK: Sz = Sz { a: 2, b: 1, faults: 1, inflight: 2, rich: false };
 const DEEP: Sz = Sz { a: 2, b: 1, faults: 2, inflight: 2, rich: true };
 /// thorough, variant 2: more funds, three packets in flight
 const WIDE: Sz = Sz { a: 3, b: 1, faults: 1, inflight: 3, rich: true };
+/// thorough, variant 2 for cw20 (every payout is a contract call: costlier per transition)
+const WIDE2: Sz = Sz { a: 3, b: 1, faults: 1, inflight: 2, rich: true };
 
 fn apply_size(c: &mut Cfg, t: Tok, sz: Sz) {
     c.funds = vec![(A, t, sz.a), (B, t, sz.b)];
@@ -94,7 +96,6 @@ fn default_cfg(name: &str, thorough: bool) -> Cfg {
         c.funds = vec![(A, T1, 1), (A, T2, 2), (B, T2, 1)];
         c.senders = vec![A, B];
         c.receivers = vec![Rcv::User(B), Rcv::User(A), Rcv::Invalid];
-        c.fault_bound = 2;
     }
     c
 }
@@ -120,7 +121,7 @@ fn pair_cfg(name: &str, thorough: bool) -> Cfg {
     c.fault_kinds = vec![Fault::Reject, Fault::Gas];
     c.raws = vec![0];
     if thorough {
-        c.funds = vec![(A, N0, 2), (A, T1, 2), (B, N0, 1)];
+        c.funds = vec![(A, N0, 2), (A, T1, 1), (B, N0, 1)];
         c.send_amounts = vec![1, 2];
         c.recv_amounts = vec![1, 2, 3];
     }
@@ -210,7 +211,7 @@ fn configs(prop: &str, thorough: bool) -> Vec<(Cfg, Option<usize>)> {
                 v.push(native_cfg("C11/native/2ch/faults2", DEEP));
                 v.push(native_cfg("C11/native/2ch/funds4-inflight3", WIDE));
                 v.push(cw20_cfg("C11/cw20-listed-limit1/2ch/faults2", Some(1), DEEP));
-                v.push(cw20_cfg("C11/cw20-listed-limit1/2ch/funds4-inflight3", Some(1), WIDE));
+                v.push(cw20_cfg("C11/cw20-listed-limit1/2ch/funds4", Some(1), WIDE2));
                 v.push(cw20_cfg("C11/cw20-listed-unlimited/2ch/faults2", None, DEEP));
                 v.push(default_cfg("C11/cw20-T2-under-default-limit/2ch", true));
                 v.push(pair_cfg("C11/native+cw20/2ch", true));
@@ -235,7 +236,7 @@ fn configs(prop: &str, thorough: bool) -> Vec<(Cfg, Option<usize>)> {
                 v.push(native_cfg("C12/fresh/native/no-allowlist-no-default/faults2", DEEP));
                 v.push(native_cfg("C12/fresh/native/no-allowlist-no-default/funds4-inflight3", WIDE));
                 v.push(cw20_cfg("C12/fresh/cw20/listed-limit1/faults2", Some(1), DEEP));
-                v.push(cw20_cfg("C12/fresh/cw20/listed-limit1/funds4-inflight3", Some(1), WIDE));
+                v.push(cw20_cfg("C12/fresh/cw20/listed-limit1/funds4", Some(1), WIDE2));
                 v.push(cw20_cfg("C12/fresh/cw20/listed-unlimited/faults2", None, DEEP));
                 v.push(default_cfg("C12/fresh/cw20/T1-listed+T2-under-default", true));
                 v.push(pair_cfg("C12/fresh/native+cw20", true));
@@ -316,9 +317,6 @@ fn configs(prop: &str, thorough: bool) -> Vec<(Cfg, Option<usize>)> {
             let defaults: Vec<(&str, Option<u64>)> = vec![("default-none", None), ("default-2", Some(2))];
             for (an, allow) in &inits {
                 for (dn, dflt) in &defaults {
-                    if !thorough && *an == "allow[T1:unlimited]" && dflt.is_some() {
-                        continue;
-                    }
                     let mut c = Cfg::base(&format!("C18/{an}/{dn}"));
                     c.props = p.clone();
                     c.channels = 1;
@@ -335,15 +333,20 @@ fn configs(prop: &str, thorough: bool) -> Vec<(Cfg, Option<usize>)> {
                     c.raws = vec![];
                     c.ack_kinds = vec![AckKind::Error];
                     c.timeouts = true;
-                    c.max_inflight = if thorough { 2 } else { 1 };
+                    c.max_inflight = 2;
                     c.gov_actors = vec![G, G2, X];
                     c.allow_tokens = vec![0, 1];
                     c.allow_limits = vec![None, Some(1), Some(2), Some(3)];
                     c.admin_targets = vec![G, G2];
                     c.migrate_limits = vec![None, Some(1), Some(3)];
-                    if !thorough {
-                        c.allow_limits = vec![None, Some(1), Some(3)];
-                        c.migrate_limits = vec![None, Some(3)];
+                    if thorough {
+                        // two channels, both users send, one payout/refund fault per history
+                        c.channels = 2;
+                        c.funds = vec![(A, T1, 1), (A, T2, 1), (A, N0, 1), (B, T2, 1)];
+                        c.senders = vec![A, B];
+                        c.receivers = vec![Rcv::User(B), Rcv::User(A)];
+                        c.fault_bound = 1;
+                        c.fault_kinds = vec![Fault::Reject, Fault::Gas];
                     }
                     out.push((c, None));
                 }
